@@ -714,6 +714,12 @@ class KeychainSqlite3(Keychain):
         if name not in self:
             raise KeyError(f'Identity {Name.to_str(id_name)} does not exist')
         identity = self[name]
+        if kwargs.get('key_id'):
+            # An explicit key ID naming a key that already exists must be refused before anything is generated:
+            # generating it would replace that key's private key, and the clean-up below would then delete it
+            existing = self.tpm.construct_key_name(name, b'', key_id=kwargs['key_id'])
+            if existing in identity:
+                raise sqlite3.IntegrityError(f'Key {Name.to_str(existing)} already exists')
         key_name, pub_key = self.tpm.generate_key(name, key_type, **kwargs)
         formal_key_name = key_name
         try:
